@@ -1,7 +1,7 @@
 """C16 — recompute_edges touches only burst edges and only grows bursts.  Model/Edges.v."""
 import math
 import numpy as np
-from harness import coqio, gen, pipeline
+from harness import coqio, gen, pipeline, tablelayout
 from harness.core import exc_kind
 
 PROP = 'C16'
@@ -13,15 +13,19 @@ COQ_TYPES = ('bool * (float * float * float * float) * Z * list ed_in', 'result 
 SHARD = 40
 RULE = ('recompute_edges (function and Bycycle.recompute_edges) on cycle tables produced by consistency burst detection on '
         'bursty / mixed generated signals of both centrings; stream A: the original thresholds with every *_threshold lowered by '
-        'r in {0, .05, .1, .2, .3}; stream B (about 45 %): an INDEPENDENT threshold dictionary (single thresholds raised or lowered, '
+        'r in {0, .05, .1, .2, .3}; stream C (40 quick / 400 thorough, kind edges-noburst): the first detection with thresholds '
+        'under which nothing is labelled (a threshold of 1, all of them 1, min_n_cycles longer than the table), then lowered by r or '
+        'replaced by a lower / partial / identical dictionary; about 40 % of all tables are handed over with their columns sorted / '
+        'reversed / shuffled, some with an unrelated extra column (function: the argument; object: its df_features); stream B (about 45 %): an INDEPENDENT threshold dictionary (single thresholds raised or lowered, '
         'the documented use "only amp_consistency_threshold = 0", fresh values, another min_n_cycles in 0..5, partial dictionaries '
         'whose missing keys take the documented defaults of detect_bursts_cycles, a few values outside [0,1]); amp_consistency, '
         'period_consistency and is_burst of the result compared with the model; oracle: frame condition on every other cell (column '
-        'set and row labels, not column order), input untouched, one-sided edge values with the direction towards the burst, '
+        'set and row labels, not column order), input untouched and result a new object (function: the argument; object: the table '
+        'it held before the call), one-sided edge values with the direction towards the burst, '
         'labels = threshold-and-run rule on the edited table with the thresholds passed; growth only where the property promises it '
         '(every new threshold <= the old one and min_n_cycles not larger). Thresholds outside [0,1] / negative min_n_cycles are '
         'outside the property\'s domain: no oracle verdict, only the model comparison (ValueError). '
-        'non-trivial = the input table contains a burst and a non-burst cycle')
+        'non-trivial = the input table contains a burst and a non-burst cycle; stream C: no burst in the input and a label in the result')
 ASSUMPTIONS = ['the input table comes from consistency burst detection (first and last cycle not bursting)',
                'a threshold dictionary that omits keys means the documented defaults of detect_bursts_cycles (0, .5, .5, .8, 3)']
 CYC = pipeline.CYC_KEYS
@@ -45,7 +49,46 @@ def cases(rng, tier):
             c['thr2'] = _independent(rng, thr)
             c['reduction'] = 0
         out.append(c)
+    # tables WITHOUT any burst (nothing qualified at the first detection), recomputed with lowered thresholds: there is no
+    # edge to edit, the labels are the rule on the unedited table - and the result is still a NEW table, the input untouched
+    for _ in range(40 if tier == 'quick' else 400):
+        out.append(_noburst_case(rng))
+    # column layout of the table handed to recompute_edges (the user sorted / re-assembled it, added a column of their own)
+    for c in out:
+        c['cols'] = tablelayout.gen_layout(rng)
     return out
+
+
+def _noburst_case(rng):
+    s = gen.signal(rng, kind=rng.choice(['bursty', 'sparse', 'sum', 'sine', 'sine', 'asym', 'chirp', 'noise']), max_len=600)
+    # first detection: high but valid thresholds under which no cycle can be labelled
+    thr = {'amp_fraction_threshold': rng.choice([0.3, 0.4]), 'amp_consistency_threshold': rng.choice([0.5, 0.7]),
+           'period_consistency_threshold': rng.choice([0.5, 0.7]), 'monotonicity_threshold': rng.choice([0.7, 0.8]),
+           'min_n_cycles': rng.choice([1, 2, 3])}
+    how = rng.choice(['one_threshold_1', 'one_threshold_1', 'all_1', 'run_longer_than_table'])
+    if how == 'one_threshold_1':
+        thr[rng.choice(CYC)] = 1.0                  # strict >: nothing exceeds 1
+    elif how == 'all_1':
+        for k in CYC:
+            thr[k] = 1.0
+    else:
+        thr['min_n_cycles'] = 10000
+    c = {'kind': 'edges-noburst/' + s['kind'], 'sig': gen.hexlist(s['sig']), 'fs': s['fs'], 'f_range': list(s['f_range']),
+         'center': rng.choice(['peak', 'trough']), 'thr': thr, 'reduction': 0, 'via': rng.choice(['func', 'object']), 'noburst': how}
+    r = rng.random()
+    if how == 'run_longer_than_table' or r < 0.5:
+        # an independent, lower dictionary (also partial ones: missing keys = documented defaults)
+        t2 = {k: rng.choice([0.0, 0.1, 0.2, 0.3]) for k in CYC}
+        t2['min_n_cycles'] = rng.choice([1, 2, 3])
+        if rng.random() < 0.3:
+            t2 = {k: v for k, v in t2.items() if rng.random() < 0.6}
+        if rng.random() < 0.15:
+            t2 = dict(thr)                          # unchanged thresholds: nothing changes, still a new table
+        c['thr2'] = t2
+    elif r < 0.9:
+        c['reduction'] = rng.choice([x for x in [0.1, 0.2, 0.3] if x <= min(thr[k] for k in CYC)])
+    # else: reduction 0 / None with the original thresholds (result equals the input in value)
+    return c
 
 
 def _independent(rng, thr):
@@ -87,6 +130,8 @@ def run_impl(c):
         df = compute_features(sig, c['fs'], tuple(c['f_range']), center_extrema=c['center'], threshold_kwargs=dict(c['thr']))
     except Exception as e:
         return {'skip': 'compute_features raised %s' % exc_kind(e)}
+    lay = c.get('cols')
+    df = tablelayout.apply_layout(df, lay)      # columns in another order / with a column of the user's own; all reads by name
     before = df.copy()
     thr2 = c.get('thr2')
     passed = dict(thr2) if thr2 is not None else {k: (v - c['reduction'] if k.endswith('threshold') else v) for k, v in c['thr'].items()}
@@ -99,28 +144,33 @@ def run_impl(c):
             from bycycle import Bycycle
             bm = Bycycle(center_extrema=c['center'], thresholds=dict(c['thr']))
             bm.fit(sig, c['fs'], tuple(c['f_range']))
+            if lay:
+                bm.df_features = tablelayout.apply_layout(bm.df_features, lay)
             if thr2 is not None:
                 bm.thresholds = dict(thr2)
+            # the object's table before the call is "the input table": a user may hold a reference to it
+            df = bm.df_features
+            before_obj = df.copy()
             try:
                 bm.recompute_edges(c['reduction'] if c['reduction'] else None)
             finally:
                 out['obj_thresholds_unchanged'] = bm.thresholds == (thr2 if thr2 is not None else c['thr'])
             res = bm.df_features
+            out['input_unchanged'] = bool(before_obj.equals(df))
         else:
             res = recompute_edges(df, dict(passed))
+            out['input_unchanged'] = bool(before.equals(df))
     except Exception as e:
         out['err'] = exc_kind(e)
         out['msg'] = str(e)[:160]
         return out
-    out['input_unchanged'] = bool(before.equals(df))
     out['same_object'] = res is df
     out['res'] = [{'ac': _f(float(res['amp_consistency'].iloc[i])), 'pc': _f(float(res['period_consistency'].iloc[i])),
                    'lab': bool(res['is_burst'].iloc[i])} for i in range(len(res))]
     other = [col for col in before.columns if col not in ('amp_consistency', 'period_consistency', 'is_burst')]
     out['others_unchanged'] = bool(len(res) == len(before) and set(res.columns) == set(before.columns) and
                                    list(res.index) == list(before.index) and
-                                   all(np.array_equal(np.asarray(res[col], dtype=float), np.asarray(before[col], dtype=float), equal_nan=True)
-                                       for col in other))
+                                   all(tablelayout.same_column(res[col], before[col]) for col in other))
     return out
 
 
@@ -142,8 +192,12 @@ def oracle(c, o):
     n = len(rows)
     if len(res) != n or not o['others_unchanged']:
         return 'rows or other columns changed'
-    if c['via'] == 'func' and (not o['input_unchanged'] or o['same_object']):
-        return 'input table modified / returned'
+    # "returns a new table ... and the input table is untouched": for the function the table passed in, for the object
+    # the table it held before the call (the rows / other-columns clauses above compare the result with a snapshot)
+    if not o.get('input_unchanged', True):
+        return 'input table modified' + (' (the table the object held before recompute_edges)' if c['via'] == 'object' else '')
+    if o.get('same_object'):
+        return 'the result is the input table itself, not a new table'
     if c['via'] == 'object' and not o.get('obj_thresholds_unchanged', True):
         return 'object thresholds modified by recompute_edges'
     lab = [r['lab'] for r in rows]
@@ -202,11 +256,18 @@ def oracle(c, o):
 
 
 def nontrivial(c, o):
-    return 'res' in o and any(r['lab'] for r in o['rows']) and not all(r['lab'] for r in o['rows'])
+    if 'res' not in o:
+        return False
+    if c.get('noburst'):
+        # no burst in the input: non-trivial if the recomputation labels something (so that a write into the input shows)
+        return len(o['rows']) >= 3 and not any(r['lab'] for r in o['rows']) and any(r['lab'] for r in o['res'])
+    return any(r['lab'] for r in o['rows']) and not all(r['lab'] for r in o['rows'])
 
 
 def kind_of(c, o):
-    k = c['kind'] + '/' + c['via'] + ('/thr2' if c.get('thr2') is not None else '')
+    k = c['kind'] + '/' + c['via'] + ('/thr2' if c.get('thr2') is not None else '') + tablelayout.tag(c.get('cols'))
+    if 'rows' in o and not any(r['lab'] for r in o['rows']):
+        k += '/input-without-burst'
     if 'res' in o and any(b['lab'] and not a['lab'] for a, b in zip(o['rows'], o['res'])):
         k += '/grew'
     if 'res' in o and any(a['lab'] and not b['lab'] for a, b in zip(o['rows'], o['res'])):
